@@ -459,6 +459,17 @@ fn run(ctx: &RunCtx) -> Report {
             sim.run_for(rng.range(10, 2000) * MS);
         }
         sim.run_for(rng.range(1, 30) * SEC);
+        // nobody the node could reach exists yet (its only bootstrap address is down, the ghosts asked once and are
+        // gone): asked now, it reports not bootstrapped, whatever unverified requesters it has heard of
+        if rng.chance(1, 2) {
+            let o = sim.bootstrapped(x);
+            if !sim.run_ops(&[o], sim.now() + 30 * SEC) {
+                report.violate("hang", "bootstrapped-did-not-return", "bootstrapped() of the early-bird node did not return within 30 s while its bootstrap node was down".into());
+            } else if sim.with_op(o, |o| matches!(o.outcome, Some(Outcome::Bool(true)))) {
+                report.violate("bootstrap", "bootstrapped-true-with-dead-bootstrap-list", format!("bootstrapped() returned true for a node whose only bootstrap address is down and whose routing table is empty ({n_ghosts} silent requesters had asked it); {what}"));
+            }
+            report.probe("early_bird_asked_before_its_bootstrap_node_is_up", 1);
+        }
         // now the bootstrap server comes up, as a member of the live network
         let mut bspec = NodeSpec::new(b_ip, 6881).server();
         bspec.bootstrap = vec![sim.node_addr(net.first).to_string()];
